@@ -5,6 +5,7 @@ A *history* is a list of revisions.  Each revision is a dict
     {"objs": {num: value}, "root": num, "info": num,          # logical part
      "frees": [num...], "gens": {num: generation},            # optional: numbers marked free; generation numbers
      "form": "T"|"S"|"H", "pack": bool, "eol": bytes, "W": (w1, w2, w3),   # physical part
+     "trailer_sep": b"\n"|b" "|b"",  # optional: what separates the keyword ``trailer`` from its dictionary
      "xfilter": None|"flate"|"png"}   # optional: cross-reference streams FlateDecode'd, "png" with /Predictor 12
 
 ``write_history`` lays the revisions out as an initial body followed by
@@ -224,7 +225,7 @@ def write_history(revs: Sequence[Dict[str, Any]], header: bytes = HEADER):
             xpos = len(out)
             inuse = {n: (o[1], gens.get(n, 0)) for n, o in offs.items()}
             out += table_bytes(inuse, freelist, eol)
-            out += b"trailer\n" + ser({"Size": size, **tr}) + b"\n"
+            out += b"trailer" + rev.get("trailer_sep", b"\n") + ser({"Size": size, **tr}) + b"\n"
             newsecs = [("T", sorted(inuse))]
         elif form == "S":
             xpos = len(out)
@@ -255,7 +256,7 @@ def write_history(revs: Sequence[Dict[str, Any]], header: bytes = HEADER):
             for n in hidden:
                 tfree[n] = (0, 1)  # hidden from table-only readers
             out += table_bytes(inuse, tfree, eol)
-            out += b"trailer\n" + ser({"Size": size, **tr, "XRefStm": xspos}) + b"\n"
+            out += b"trailer" + rev.get("trailer_sep", b"\n") + ser({"Size": size, **tr, "XRefStm": xspos}) + b"\n"
             newsecs = [("T", sorted(inuse)), ("S", sorted(entries))]
         else:
             raise ValueError(form)
